@@ -712,3 +712,195 @@ pub proof fn lemma_ftag_holds_frame(b: Seq<u8>, b2: Seq<u8>, base: int, j: int, 
         assert(str_at(b, off + 2, k) == tag[k]);
     }
 }
+// ---- final assembly: from what the passes established about the buffer to the accessor views of the finished filter ----
+// a write confined to [a, e) at or below the tag-section length slot leaves every finished tag and its strings as they were
+pub proof fn lemma_ftags_holds_below(s: Seq<u8>, r: JF, b: Seq<u8>, b2: Seq<u8>, base: int, n: int, limit: int, a: int, e: int)
+    requires b2.len() == b.len(), limit <= b.len(), 0 <= base, 0 <= n, 0 <= a <= e <= base + 2, e <= b.len(), n == r.tags.len(),
+        forall|i: int| 0 <= i < b.len() && !(a <= i < e) ==> #[trigger] b2[i] == b[i],
+        forall|j: int| 0 <= j < n ==> #[trigger] ftag_holds(b, base, j, n, limit, jf_tag(s, r.tags[j])),
+    ensures forall|j: int| 0 <= j < n ==> #[trigger] ftag_holds(b2, base, j, n, limit, jf_tag(s, r.tags[j])),
+{
+    assert forall|j: int| 0 <= j < n implies #[trigger] ftag_holds(b2, base, j, n, limit, jf_tag(s, r.tags[j])) by {
+        assert(ftag_holds(b, base, j, n, limit, jf_tag(s, r.tags[j])));
+        let offj = base + u16_at(b, base + 4 + 2 * j);
+        lemma_so_mono(b, offj + 2, 0, u16_at(b, offj));
+        lemma_ftag_holds_frame(b, b2, base, j, n, limit, jf_tag(s, r.tags[j]));
+    }
+}
+// strings of a run seen through a suffix of the buffer
+pub proof fn lemma_str_at_shift(out: Seq<u8>, base: int, start: int, n: int)
+    requires 0 <= base, 0 <= start, 0 <= n, so(out, base + start, n) <= out.len()
+    ensures forall|k: int| 0 <= k < n ==> #[trigger] str_at(out.subrange(base, out.len() as int), start, k) == str_at(out, base + start, k),
+{
+    let sfx = out.subrange(base, out.len() as int);
+    assert forall|k: int| 0 <= k < n implies #[trigger] str_at(sfx, start, k) == str_at(out, base + start, k) by {
+        lemma_so_mono(out, base + start, k + 1, n);
+        lemma_so_mono(out, base + start, 0, k);
+        lemma_so_shift(out, base, start, k);
+        lemma_so_shift(out, base, start, k + 1);
+        let p = so(sfx, start, k);
+        assert(sfx.subrange(p, p + 2) =~= out.subrange(base + p, base + p + 2));
+        assert(str_at(sfx, start, k) =~= str_at(out, base + start, k));
+    }
+}
+// the tags section: view of the finished section == the strings of the "#L" members, in member order
+pub proof fn lemma_ftags_view(s: Seq<u8>, r: JF, out: Seq<u8>, len: int, base: int, n: int)
+    requires 36 <= len <= out.len(), 0 <= base, base + 4 + 2 * n <= len, 0 <= n, len - base <= 65535, n == r.tags.len(),
+        u16_at(out, base) == len - base, u16_at(out, base + 2) == n,
+        forall|j: int| 0 <= j < n ==> #[trigger] ftag_holds(out, base, j, n, len, jf_tag(s, r.tags[j])),
+    ensures tags_view(out.subrange(base, len)) =~= jf_tags(s, r)
+{
+    let tl = len - base;
+    let sfx = out.subrange(base, out.len() as int);
+    let pv = jf_tags(s, r);
+    assert forall|i: int| 0 <= i && i + 2 <= out.len() - base implies #[trigger] u16_at(sfx, i) == u16_at(out, base + i) by {
+        assert(sfx.subrange(i, i + 2) =~= out.subrange(base + i, base + i + 2));
+    }
+    assert forall|j: int| 0 <= j < n implies #[trigger] tag_holds(sfx, j, n, tl, pv[j]) by {
+        assert(ftag_holds(out, base, j, n, len, jf_tag(s, r.tags[j])));
+        let off = base + u16_at(out, base + 4 + 2 * j);
+        let ns = u16_at(out, off);
+        lemma_so_mono(out, off + 2, 0, ns);
+        lemma_so_shift(out, base, off - base + 2, ns);
+        assert(t_off(sfx, j) == off - base);
+        assert(u16_at(sfx, off - base) == ns);
+        lemma_str_at_shift(out, base, off - base + 2, ns);
+        assert forall|k: int| 0 <= k < pv[j].len() implies #[trigger] str_at(sfx, t_off(sfx, j) + 2, k) == pv[j][k] by {
+            assert(str_at(out, off + 2, k) == pv[j][k]);
+        }
+    }
+    lemma_view_from_layout(sfx, n, tl, pv);
+    assert(sfx.subrange(0, tl) =~= out.subrange(base, len));
+}
+// ids / authors / kinds / header of the finished filter c = out[..len]
+pub proof fn lemma_filter_views(s: Seq<u8>, r: JF, out: Seq<u8>, len: int)
+    requires 36 <= len <= out.len(),
+        jf_hdr_ok(s, out, r),
+        u16_at(out, 4) == jf_ids(s, r).len(), u16_at(out, 6) == jf_authors(s, r).len(), u16_at(out, 8) == jf_kinds(s, r).len(),
+        pblocks(out, 32, hex_views(s, jf_ids(s, r)), jf_ids(s, r).len() as int, 32),
+        pblocks(out, 32 + 32 * (jf_ids(s, r).len() as int), hex_views(s, jf_authors(s, r)), jf_authors(s, r).len() as int, 32),
+        pblocks(out, 32 + 32 * (jf_ids(s, r).len() as int) + 32 * (jf_authors(s, r).len() as int), num_views(s, jf_kinds(s, r)), jf_kinds(s, r).len() as int, 2),
+        32 + 32 * jf_ids(s, r).len() + 32 * jf_authors(s, r).len() + 2 * jf_kinds(s, r).len() <= len,
+        forall|i: int| 0 <= i < jf_kinds(s, r).len() ==> #[trigger] jf_num(s, jf_kinds(s, r)[i]) <= 65535,
+    ensures ({
+        let c = out.subrange(0, len);
+        &&& f_nids(c) == jf_ids(s, r).len() && f_nauthors(c) == jf_authors(s, r).len() && f_nkinds(c) == jf_kinds(s, r).len()
+        &&& forall|i: int| 0 <= i < jf_ids(s, r).len() ==> #[trigger] f_id(c, i) == jf_hex(s, jf_ids(s, r)[i])
+        &&& forall|i: int| 0 <= i < jf_authors(s, r).len() ==> #[trigger] f_author(c, i) == jf_hex(s, jf_authors(s, r)[i])
+        &&& forall|i: int| 0 <= i < jf_kinds(s, r).len() ==> #[trigger] f_kind(c, i) == jf_num(s, jf_kinds(s, r)[i])
+        &&& f_since(c) == jf_since(s, r) && f_until(c) == jf_until(s, r) && f_limit(c) == jf_limit(s, r)
+    })
+{
+    reveal(pblocks);
+    reveal(jf_hdr_ok);
+    broadcast use lemma_ne16_bytes16;
+    let c = out.subrange(0, len);
+    let ni = jf_ids(s, r).len() as int;
+    let na = jf_authors(s, r).len() as int;
+    let nk = jf_kinds(s, r).len() as int;
+    assert(c.subrange(4, 6) =~= out.subrange(4, 6));
+    assert(c.subrange(6, 8) =~= out.subrange(6, 8));
+    assert(c.subrange(8, 10) =~= out.subrange(8, 10));
+    assert(c.subrange(12, 16) =~= out.subrange(12, 16));
+    assert(c.subrange(16, 24) =~= out.subrange(16, 24));
+    assert(c.subrange(24, 32) =~= out.subrange(24, 32));
+    assert forall|i: int| 0 <= i < ni implies #[trigger] f_id(c, i) == jf_hex(s, jf_ids(s, r)[i]) by {
+        assert(c.subrange(32 + 32 * i, 64 + 32 * i) =~= out.subrange(32 + 32 * i, 32 + 32 * i + 32));
+        assert(out.subrange(32 + 32 * i, 32 + 32 * i + 32) == hex_views(s, jf_ids(s, r))[i]);
+    }
+    assert forall|i: int| 0 <= i < na implies #[trigger] f_author(c, i) == jf_hex(s, jf_authors(s, r)[i]) by {
+        assert(c.subrange(32 + 32 * ni + 32 * i, 32 + 32 * ni + 32 * i + 32) =~= out.subrange(32 + 32 * ni + 32 * i, 32 + 32 * ni + 32 * i + 32));
+        assert(out.subrange(32 + 32 * ni + 32 * i, 32 + 32 * ni + 32 * i + 32) == hex_views(s, jf_authors(s, r))[i]);
+    }
+    assert forall|i: int| 0 <= i < nk implies #[trigger] f_kind(c, i) == jf_num(s, jf_kinds(s, r)[i]) by {
+        let b0 = 32 + 32 * ni + 32 * na;
+        assert(c.subrange(b0 + 2 * i, b0 + 2 * i + 2) =~= out.subrange(b0 + 2 * i, b0 + 2 * i + 2));
+        assert(out.subrange(b0 + 2 * i, b0 + 2 * i + 2) == num_views(s, jf_kinds(s, r))[i]);
+        assert(jf_num(s, jf_kinds(s, r)[i]) <= 65535);
+    }
+}
+// every kind of a kinds array fits 16 bits (so writing it as u16 loses nothing)
+pub proof fn lemma_numarr_elems(s: Seq<u8>, p: int, first: bool)
+    requires jnumarr(s, p, first) is Some
+    ensures forall|i: int| 0 <= i < jnumarr(s, p, first)->Some_0.1.len() ==> #[trigger] jf_num(s, jnumarr(s, p, first)->Some_0.1[i]) <= 65535
+    decreases s.len() - p
+{
+    if first && s[p] == 0x5D { }
+    else {
+        let e2 = ws_end(s, digits_end(s, p));
+        if s[e2] == 0x2C {
+            let p2 = ws_end(s, e2 + 1);
+            lemma_numarr_elems(s, p2, false);
+            let r2 = jnumarr(s, p2, false)->Some_0.1;
+            let ps = jnumarr(s, p, first)->Some_0.1;
+            assert(ps =~= seq![p] + r2);
+            assert forall|i: int| 0 <= i < ps.len() implies #[trigger] jf_num(s, ps[i]) <= 65535 by {
+                if i > 0 { assert(ps[i] == r2[i - 1]); }
+            }
+        }
+    }
+}
+// everything in front of the tags section: counts, header fields, the three arrays
+#[verifier::opaque]
+pub open spec fn fparts_ok(s: Seq<u8>, o: Seq<u8>, r: JF) -> bool {
+    let ni = jf_ids(s, r).len() as int;
+    let na = jf_authors(s, r).len() as int;
+    let nk = jf_kinds(s, r).len() as int;
+    &&& jf_hdr_ok(s, o, r)
+    &&& u16_at(o, 4) == ni && u16_at(o, 6) == na && u16_at(o, 8) == nk
+    &&& pblocks(o, 32, hex_views(s, jf_ids(s, r)), ni, 32)
+    &&& pblocks(o, 32 + 32 * ni, hex_views(s, jf_authors(s, r)), na, 32)
+    &&& pblocks(o, 32 + 32 * ni + 32 * na, num_views(s, jf_kinds(s, r)), nk, 2)
+}
+pub proof fn lemma_fparts_intro(s: Seq<u8>, o: Seq<u8>, r: JF)
+    requires jf_hdr_ok(s, o, r),
+        u16_at(o, 4) == jf_ids(s, r).len(), u16_at(o, 6) == jf_authors(s, r).len(), u16_at(o, 8) == jf_kinds(s, r).len(),
+        pblocks(o, 32, hex_views(s, jf_ids(s, r)), jf_ids(s, r).len() as int, 32),
+        pblocks(o, 32 + 32 * (jf_ids(s, r).len() as int), hex_views(s, jf_authors(s, r)), jf_authors(s, r).len() as int, 32),
+        pblocks(o, 32 + 32 * (jf_ids(s, r).len() as int) + 32 * (jf_authors(s, r).len() as int), num_views(s, jf_kinds(s, r)), jf_kinds(s, r).len() as int, 2),
+    ensures fparts_ok(s, o, r)
+{ reveal(fparts_ok); }
+pub proof fn lemma_fparts_frame(s: Seq<u8>, o1: Seq<u8>, o2: Seq<u8>, r: JF, wts: int)
+    requires fparts_ok(s, o1, r), o1.len() == o2.len(), 32 <= wts <= o1.len(),
+        wts == 32 + 32 * jf_ids(s, r).len() + 32 * jf_authors(s, r).len() + 2 * jf_kinds(s, r).len(),
+        forall|i: int| 4 <= i < wts ==> #[trigger] o2[i] == o1[i],
+    ensures fparts_ok(s, o2, r)
+{
+    reveal(fparts_ok);
+    let ni = jf_ids(s, r).len() as int;
+    let na = jf_authors(s, r).len() as int;
+    let nk = jf_kinds(s, r).len() as int;
+    lemma_hdr_frame(s, o1, o2, r);
+    assert(o2.subrange(4, 6) =~= o1.subrange(4, 6));
+    assert(o2.subrange(6, 8) =~= o1.subrange(6, 8));
+    assert(o2.subrange(8, 10) =~= o1.subrange(8, 10));
+    lemma_pblocks_frame(o1, o2, 32, hex_views(s, jf_ids(s, r)), ni, 32);
+    lemma_pblocks_frame(o1, o2, 32 + 32 * ni, hex_views(s, jf_authors(s, r)), na, 32);
+    lemma_pblocks_frame(o1, o2, 32 + 32 * ni + 32 * na, num_views(s, jf_kinds(s, r)), nk, 2);
+}
+// the finished filter c = out[..len]: every accessor view equals what the scan extracted
+pub proof fn lemma_filter_final(s: Seq<u8>, r: JF, out: Seq<u8>, len: int, wts: int, n: int)
+    requires 36 <= len <= out.len(), fparts_ok(s, out, r), jf_rec_ok(s, r), n == r.tags.len(),
+        wts == 32 + 32 * jf_ids(s, r).len() + 32 * jf_authors(s, r).len() + 2 * jf_kinds(s, r).len(),
+        wts + 4 + 2 * n <= len, len - wts <= 65535, u16_at(out, wts) == len - wts, u16_at(out, wts + 2) == n,
+        forall|j: int| 0 <= j < n ==> #[trigger] ftag_holds(out, wts, j, n, len, jf_tag(s, r.tags[j])),
+    ensures ({
+        let c = out.subrange(0, len);
+        &&& f_nids(c) == jf_ids(s, r).len() && f_nauthors(c) == jf_authors(s, r).len() && f_nkinds(c) == jf_kinds(s, r).len()
+        &&& forall|i: int| 0 <= i < jf_ids(s, r).len() ==> #[trigger] f_id(c, i) == jf_hex(s, jf_ids(s, r)[i])
+        &&& forall|i: int| 0 <= i < jf_authors(s, r).len() ==> #[trigger] f_author(c, i) == jf_hex(s, jf_authors(s, r)[i])
+        &&& forall|i: int| 0 <= i < jf_kinds(s, r).len() ==> #[trigger] f_kind(c, i) == jf_num(s, jf_kinds(s, r)[i])
+        &&& f_since(c) == jf_since(s, r) && f_until(c) == jf_until(s, r) && f_limit(c) == jf_limit(s, r)
+        &&& tags_view(f_tags(c)) =~= jf_tags(s, r)
+    })
+{
+    reveal(fparts_ok);
+    lemma_rec_ok_fields(s, r);
+    if r.kinds >= 0 { lemma_numarr_elems(s, ws_end(s, r.kinds), true); }
+    lemma_filter_views(s, r, out, len);
+    lemma_ftags_view(s, r, out, len, wts, n);
+    let c = out.subrange(0, len);
+    assert(f_tags_start(c) == wts);
+    assert(c.subrange(wts, wts + 2) =~= out.subrange(wts, wts + 2));
+    assert(f_tags(c) =~= out.subrange(wts, len));
+}
